@@ -45,6 +45,11 @@ func buildSpec(shape string, tag string) world.ChainSpec {
 		if t%3 == 0 {
 			spec.Initial = 5
 		}
+		// one chain in four signs its headers over a payload of its own (a chain-wide option of the node): whatever
+		// a full node does with a header - also one restored from its caches - it must verify it the chain's way
+		if t%4 == 1 {
+			spec.CustomPayload = true
+		}
 	}
 	var last [][]byte
 	for i, c := range shape {
